@@ -353,6 +353,12 @@ func ValueUsesAsCond(v ssa.Value) []*ssa.If {
 // (from -> succ) without taking the sentinel-true edge of a sentinel test on
 // the same error and without reassigning... (path-insensitive otherwise).
 func (e *Engine) successFromErrEdge(fn *ssa.Function, from, succ *ssa.BasicBlock, aliases map[ssa.Value]bool, hasErrRes bool) PathResult {
+	return e.successFromErrEdgeMode(fn, from, succ, aliases, hasErrRes, false)
+}
+
+// strict: a sentinel test of the error is not an excuse (used for callees whose
+// every error is a refusal, e.g. publishing a snapshot directory).
+func (e *Engine) successFromErrEdgeMode(fn *ssa.Function, from, succ *ssa.BasicBlock, aliases map[ssa.Value]bool, hasErrRes bool, strict bool) PathResult {
 	edgeOK := func(p, s *ssa.BasicBlock) bool {
 		if len(p.Instrs) == 0 {
 			return true
@@ -362,7 +368,7 @@ func (e *Engine) successFromErrEdge(fn *ssa.Function, from, succ *ssa.BasicBlock
 			return true
 		}
 		// sentinel test: do not follow the edge on which err IS the sentinel
-		if t, pol := e.sentinelTest(ifi.Cond, aliases); t {
+		if t, pol := e.sentinelTest(ifi.Cond, aliases); t && !strict {
 			if (pol && s == p.Succs[0]) || (!pol && s == p.Succs[1]) {
 				return false
 			}
